@@ -15,10 +15,11 @@ inductive Rt where
 
 abbrev V := Val Nat Nat
 
-/-- proof descriptor (see tmdep.go): kind, store root id, message id, variant flags -/
+/-- proof descriptor (see tmdep.go): `e`xistence / `a`bsence proof of item `item` in store version `ver` -/
 structure Pf where
-  desc : String
-  deriving Inhabited
+  kind : Char
+  item : Nat
+  ver : Nat
 
 inductive Cm where
   | tm (c : Commit Nat String String)
@@ -29,8 +30,9 @@ abbrev Hdr := Header Nat Nat String String Cm
 structure DSt where
   hdrs : List (String × Option Hdr)
   st : St String String String
+  sideChain : Bool
 
-def DSt.init : DSt := ⟨[], St.empty⟩
+def DSt.init : DSt := ⟨[], St.empty, false⟩
 
 /-! ### descriptors -/
 
@@ -243,6 +245,91 @@ def outcome {ε : Type} (st : St String String String) (r : Except Err ε) (okTe
 
 def lookup (d : DSt) (n : String) : Option (Option Hdr) := (d.hdrs.find? (·.1 == n)).map (·.2)
 
+
+/-! ### deposits (tmdep.go) -/
+
+/-- items of a router: (first version that stores it, 0 = never; module store; key length; contract prefix ok) -/
+def itemOf (rt : Rt) (j : Nat) : Option (Nat × String × Nat × Bool) :=
+  let modStore := match rt with | .cosmos => "s" | .okex => "evm" | .heimdall => "bor"
+  if j ≤ 1 || j == 3 then some (1, modStore, 53, true)
+  else if j == 2 then some (2, modStore, 53, true)
+  else if j == 4 then (if rt == .heimdall then some (1, modStore, 53, true) else none)
+  else if j == 5 || j == 6 then some (0, modStore, 129, false)
+  else if j == 7 then (if rt == .okex then some (1, modStore, 53, false) else none)
+  else if j == 8 then (if rt == .okex then some (1, modStore, 9, false) else none)
+  else if j == 9 then some (1, "acc", 53, true)
+  else none
+
+structure DepIn where
+  proof : Option Pf
+  kp : String
+  value : Option String
+
+def parseItemTok (pre : Char) (t : String) : Option Nat :=
+  match t.toList with
+  | c :: rest => if c == pre && !rest.isEmpty then (String.ofList rest).toNat?.bind (fun j => if j ≤ 9 then some j else none) else none
+  | [] => none
+
+def parsePf (rt : Rt) (s : String) : Option DepIn :=
+  match s.splitOn "/" with
+  | [src, kp, val] =>
+    let proof? : Option (Option Pf) :=
+      if src == "x" then some none
+      else match src.toList with
+        | c :: rest =>
+          if c != 'e' && c != 'a' then none else
+          match (String.ofList rest).splitOn "r" with
+          | [j, k] =>
+            if src.length < 4 then none else
+            match j.toNat?, k.toNat? with
+            | some j, some k =>
+              if k < 1 || k > 2 || j > 9 then none else
+              match itemOf rt j with
+              | none => none
+              | some (since, _, _, _) =>
+                let present := since != 0 && since ≤ k
+                if (c == 'e') != present then none else some (some ⟨c, j, k⟩)
+            | _, _ => none
+          | _ => none
+        | [] => none
+    match proof? with
+    | none => none
+    | some proof =>
+      let kp? : Option String :=
+        if kp == "=" then proof.map (fun p => s!"k{p.item}")
+        else if kp == "-" then some ""
+        else (parseItemTok 'k' kp).bind (fun j => (itemOf rt j).map (fun _ => s!"k{j}"))
+      let val? : Option (Option String) :=
+        if val == "!" then some none
+        else (parseItemTok 'v' val).bind (fun j => (itemOf rt j).map (fun _ => some s!"v{j}"))
+      match kp?, val? with
+      | some kp, some v => some ⟨proof, kp, v⟩
+      | _, _ => none
+  | _ => none
+
+def keccakId (s : String) : String := "K(" ++ s ++ ")"
+
+/-- ideal proof runtime: an existence proof verifies exactly its item, under exactly the root of its version -/
+def proofRt (rt : Rt) : ProofRt String Pf String String where
+  verifyValue := fun p root kp value =>
+    p.kind == 'e' && root == s!"r{p.ver}" && kp == s!"k{p.item}" &&
+      value == (if rt == .okex then keccakId s!"v{p.item}" else s!"v{p.item}")
+  verifyAbsence := fun p root path => p.kind == 'a' && root == s!"r{p.ver}" && path == s!"k{p.item}"
+  decodeTx := fun v =>
+    match parseItemTok 'v' v with
+    | some j => if j == 3 || j == 4 then none else some (s!"tx{j}", s!"cc{j}")
+    | none => none
+
+def okexShape (rt : Rt) (p : Pf) : OkexShape :=
+  match itemOf rt p.item with
+  | some (_, store, klen, pre) => ⟨2, klen, pre, store == "evm"⟩
+  | none => ⟨2, 0, false, false⟩
+
+def key1IsBor (rt : Rt) (p : Pf) : Bool :=
+  match itemOf rt p.item with
+  | some (_, store, _, _) => store == "bor"
+  | none => false
+
 def rtOf (family : String) : Rt :=
   if (family.splitOn "okex").length > 1 then .okex
   else if (family.splitOn "heimdall").length > 1 || (family.splitOn "span").length > 1 then .heimdall
@@ -273,6 +360,32 @@ def step (family : String) (d : DSt) (toks : List String) : DSt × String :=
     | some hs =>
       let (st', r) := syncBlockHeader (verify rt) d.st hs
       ({ d with st := st' }, outcome st' r (fun _ => "ok"))
+  | ["sidechain"] =>
+    if rt == .heimdall then (d, "bad-op") else ({ d with sideChain := true }, "ok")
+  | ["dep", name, h, pf] =>
+    if rt == .heimdall then (d, "bad-op") else
+    let hdr? : Option (Option (Option Hdr)) := if name == "-" then some none else (lookup d name).map some
+    match hdr?, h.toNat?, parsePf rt pf with
+    | some hdr, some h, some inp =>
+      if h ≥ 4294967296 then (d, "bad-op") else
+      let p : DepParam Nat Nat String String Cm Pf String :=
+        ⟨(h : Int), hdr, inp.value.map (fun v => (inp.kp, v)), inp.proof⟩
+      let (st', r) := match rt with
+        | .okex => depositOkex (verify rt) (proofRt rt) keccakId (okexShape rt) d.sideChain d.st p
+        | _ => depositCosmos (verify rt) (proofRt rt) d.st p
+      -- (a panic aborts the native call after whatever it has already written)
+      ({ d with st := st' }, outcome st' r (fun tx => "ok:" ++ tx))
+    | _, _, _ => (d, "bad-op")
+  | ["span", name, pf] =>
+    if rt != .heimdall then (d, "bad-op") else
+    match lookup d name, parsePf rt pf with
+    | some (some hdr), some inp =>
+      match inp.proof, inp.value with
+      | some proof, some value =>
+        let r := verifySpan (verify rt) (proofRt rt) (fun _ => 2) (key1IsBor rt) d.st hdr proof inp.kp value
+        (d, outcome d.st r (fun tx => "ok:" ++ tx))
+      | _, _ => (d, "bad-op")
+    | _, _ => (d, "bad-op")
   | _ => (d, "bad-op")
 
 def main (family : String) : IO Unit := Proto.run DSt.init (step family)
